@@ -18,10 +18,16 @@ EXPLANATION = (
     "and abort call bucket_writer_closed(self, ..) on every path that closes; allocated_size() sums "
     "bw.allocated_size() over _bucket_writers.values() and BucketWriter.allocated_size is the max_size it was built "
     "with. (4) fileutil.get_disk_stats computes avail = max(free_for_nonroot - reserved_space, 0) and "
-    "fileutil.get_available_space returns 0 (not None/unlimited) when the OS call fails. "
+    "fileutil.get_available_space returns 0 (not None/unlimited) when the OS call fails. (5) the callback of the "
+    "BucketWriter inactivity timer (self.X = clock.callLater(.., cb)) runs with that DelayedCall already fired: in cb "
+    "and in every method through which cb reaches ss.bucket_writer_closed, no X.cancel()/reset()/delay() (which raise "
+    "AlreadyCalled/AlreadyCancelled then), directly or through a self.helper(), is executed on a path to the release "
+    "unless the path passed a true X.active() test, the exception is caught (try/except, suppress) or a finally "
+    "releases. Not decided by (5): other calls that may raise before the release (os.remove/rmdir failures). "
     "Undecided: the numbers reported by statvfs, concurrent processes filling the disk, space used by leases and "
     "mutable shares.")
-TECHNIQUE = "static analysis: CFG x fact monitor for the space account, must-follow / who-may-write sweeps"
+TECHNIQUE = ("static analysis: CFG x fact monitor for the space account, must-follow / who-may-write sweeps, "
+             "interprocedural exception-escape analysis from the timer callback to the release")
 
 SRV = "storage.server"
 SS = SRV + ":StorageServer"
@@ -45,6 +51,309 @@ def loop_target_names(for_node):
     if isinstance(t, (ast.Tuple, ast.List)):
         return [e.id if isinstance(e, ast.Name) else None for e in t.elts]
     return []
+
+
+# ---------------------------------------------------------------------------------------------------------------
+# C28.5: the path from the fired inactivity timer to the release of the reservation
+#
+# IDelayedCall.cancel/reset/delay raise AlreadyCalled once the call has fired (AlreadyCancelled once it was
+# cancelled); .active()/.getTime() do not.  Every method that runs *because the timer fired* therefore sees a
+# timer on which these three operations raise.
+TIMER_RAISING_OPS = ("cancel", "reset", "delay")
+CATCHES_ALREADY_CALLED = {"AlreadyCalled", "Exception", "BaseException"}
+
+
+def _handler_catches(h: ast.ExceptHandler) -> bool:
+    names = C._handler_names(h.type)
+    return names is None or bool(set(names) & CATCHES_ALREADY_CALLED)
+
+
+def _parents(fn):
+    par = {}
+    for p in ast.walk(fn.node):
+        for field, val in ast.iter_fields(p):
+            for ch in (val if isinstance(val, list) else [val]):
+                if isinstance(ch, ast.AST):
+                    par[id(ch)] = (p, field)
+    return par
+
+
+def _catching_context(fn, par, node_ast):
+    """('suppressed', None) when the statement sits in `with suppress(AlreadyCalled..)`, ('handler', H) for the
+    innermost enclosing `try` whose handler H certainly receives AlreadyCalled, else (None, None)."""
+    cur = node_ast
+    while id(cur) in par and cur is not fn.node:
+        p, field = par[id(cur)]
+        if isinstance(p, ast.Try) and field == "body":
+            for h in p.handlers:
+                if _handler_catches(h):
+                    return "handler", h
+        if isinstance(p, (ast.With, ast.AsyncWith)) and field == "body":
+            for it in p.items:
+                e = it.context_expr
+                if isinstance(e, ast.Call) and call_tail(e) == "suppress":
+                    names = set()
+                    for a in e.args:
+                        names |= set(C._handler_names(a) or [])
+                    if names & CATCHES_ALREADY_CALLED:
+                        return "suppressed", None
+        cur = p
+    return None, None
+
+
+def _escape_outcomes(fn, cfg, par, h, is_release):
+    """Where does control go when the statement at CFG node `h` raises AlreadyCalled?  Returns a dict
+    outcome -> witness for the outcomes reached WITHOUT leaving a release node first: 'raise' (the exception
+    leaves the function) and 'exit' (it is swallowed and the function returns)."""
+    kind, H = _catching_context(fn, par, h.ast)
+    if kind == "suppressed":
+        # the with-block is left, execution continues after it; the engine has no edge for that, so the
+        # statement is simply not treated as raising (the statements after the with are reached normally)
+        return {}
+    exc_succ = [(d, l) for (d, l) in cfg.successors(h) if l == "exc"]
+    if not exc_succ:
+        return {"raise": None}
+
+    def to_H(n):
+        return any(l == "exc" and d.kind == "except" and d.ast is H for (d, l) in cfg.successors(n))
+
+    def transfer(n, lab, nxt, st):
+        if n.kind in ("exit", "raise"):
+            return None
+        if st == "start" or st == "prop":
+            if st == "start" and lab != "exc":
+                return None
+            if lab != "exc":
+                # inside a `finally` copy that the exception is passing through
+                if is_release(n):
+                    return None
+                return "prop"
+            if st == "prop" and is_release(n):
+                return None           # a `finally` that releases
+            if nxt.kind == "except":
+                return "caught" if nxt.ast is H else None
+            if H is not None and to_H(n):
+                return None           # certainly caught by H: the edges past H are infeasible
+            return "prop"
+        # caught: ordinary execution resumes in the handler
+        if lab == "exc" and not (n.kind == "stmt" and isinstance(n.ast, ast.Raise)):
+            return None
+        if lab != "exc" and is_release(n):
+            return None
+        return "caught"
+
+    visited, parent = explore(cfg, "start", transfer, start=h)
+    out = {}
+    for (nid, st) in sorted(visited, key=lambda x: (x[0], str(x[1]))):
+        k = cfg.nodes[nid].kind
+        if k in ("exit", "raise") and k not in out:
+            out[k] = witness(cfg, parent, (nid, st))
+    return out
+
+
+def check_timer_release(idx, ci, r):
+    methods = ci.methods
+
+    def self_method(c):
+        nm = call_name(c)
+        if nm and nm.startswith("self.") and nm.count(".") == 1:
+            return ci.lookup(nm[5:])
+        return None
+
+    # (a) the timers: self.X = <clock>.callLater(delay, callback, ..)
+    timers = {}
+    for f in methods.values():
+        fnorm = FlowNorm(f)
+        for n in f.cfg().nodes:
+            if n.kind != "stmt" or not isinstance(n.ast, ast.Assign):
+                continue
+            v = fnorm.resolve(n, n.ast.value)
+            if not (isinstance(v, ast.Call) and call_tail(v) == "callLater"):
+                continue
+            for t in n.ast.targets:
+                p = attr_path(t)
+                if p and p.startswith("self.") and p.count(".") == 1:
+                    timers.setdefault(p, []).append((f, n, v))
+    if not timers:
+        raise AnchorVanished("BucketWriter no longer arms a timer with callLater (the inactivity timeout whose "
+                             "callback must release the reservation)")
+
+    def is_direct_release(n):
+        return any(call_name(c) == "self.ss.bucket_writer_closed" for c in node_calls(n))
+
+    # (b) which methods (transitively, through self.m() calls) reach the release
+    may_release = set()
+    changed = True
+    while changed:
+        changed = False
+        for f in methods.values():
+            if f.name in may_release:
+                continue
+            for n in f.cfg().nodes:
+                if is_direct_release(n) or any(g is not None and g.name in may_release
+                                               for g in map(self_method, node_calls(n))):
+                    may_release.add(f.name)
+                    changed = True
+                    break
+
+    skipped, n_relevant = [], 0
+    for X, arms in sorted(timers.items()):
+        # (c) callbacks of this timer = the methods that run with the timer already fired
+        roots = []
+        for (f, n, call) in arms:
+            cb = arg(call, 1, "callable")
+            if cb is None:
+                raise AnalysisError("callLater(..) without a callback in %s" % short(f))
+            cbs = []
+            if isinstance(cb, ast.Call) and call_tail(cb) == "partial" and cb.args:
+                cb = cb.args[0]
+            if isinstance(cb, ast.Attribute) and attr_path(cb) and attr_path(cb).startswith("self.") \
+                    and ci.lookup(cb.attr) is not None:
+                cbs = [ci.lookup(cb.attr)]
+            elif isinstance(cb, ast.Lambda):
+                cbs = [g for g in (self_method(c) for c in ast.walk(cb.body) if isinstance(c, ast.Call)) if g is not None]
+            elif isinstance(cb, ast.Name) and cb.id in f.nested:
+                cbs = [f.nested[cb.id]]
+            if not cbs:
+                raise AnalysisError("cannot resolve the callback %s of the timer %s armed in %s" % (src(f, cb), X, short(f)))
+            roots.append((f, n, call, cbs))
+        if not any(g.name in may_release or g.parent is not None for (_f, _n, _c, cbs) in roots for g in cbs):
+            skipped.append(X)
+            continue      # a timer that has nothing to do with the reservation
+        n_relevant += 1
+        for (f, n, call, cbs) in roots:
+            r.site(f, call, "timer %s armed" % X)
+
+        def timer_ops(f, fnorm, n, _X=X):
+            out = []
+            for c in node_calls(n):
+                if isinstance(c.func, ast.Attribute) and c.func.attr in TIMER_RAISING_OPS \
+                        and fnorm.norm(n, c.func.value) == _X:
+                    out.append(c)
+            return out
+
+        def guard_edge(fnorm, n, lab, _X=X):
+            return fnorm.edge_fact(n, lab) == ("truth", "%s.active()" % _X, None)
+
+        def unguarded(f, cfg, fnorm, is_hazard, is_release=None, measure=False):
+            """hazard nodes reachable from the entry with the timer not known to be active and (when
+            is_release is given) the reservation not yet released: [(node, witness)]"""
+            def transfer(n, lab, nxt, st):
+                if n.kind in ("entry",):
+                    return st
+                if n.kind in ("exit", "raise"):
+                    return None
+                if _X_stored(n):
+                    # re-armed with a fresh DelayedCall: its operations do not raise; anything else: unknown
+                    v = fnorm.resolve(n, n.ast.value) if isinstance(n.ast, ast.Assign) else None
+                    st = isinstance(v, ast.Call) and call_tail(v) == "callLater"
+                if is_release is not None and lab != "exc" and is_release(n):
+                    return None
+                if guard_edge(fnorm, n, lab):
+                    st = True
+                return st
+            visited, parent = explore(cfg, False, transfer)
+            if measure:
+                r.count(len(visited))
+            out, seen = [], set()
+            for (nid, st) in sorted(visited, key=lambda x: (x[0], x[1])):
+                m = cfg.nodes[nid]
+                if not st and nid not in seen and m.kind not in ("entry", "exit", "raise") and is_hazard(m):
+                    seen.add(nid)
+                    out.append((m, witness(cfg, parent, (nid, st))))
+            return out
+
+        def _X_stored(n, _X=X):
+            return _X in node_stores(n)
+
+        # (d) methods whose call raises AlreadyCalled when the timer has fired (and that do not release themselves)
+        raising = {}
+        changed = True
+        while changed:
+            changed = False
+            for g in methods.values():
+                if g.name in raising or g.name in may_release:
+                    continue
+                gcfg, gnorm, gpar = g.cfg(), FlowNorm(g), _parents(g)
+
+                def hz(m, _g=g, _gn=gnorm):
+                    return bool(timer_ops(_g, _gn, m)) or any(
+                        k is not None and k.name in raising for k in map(self_method, node_calls(m)))
+                for (m, w) in unguarded(g, gcfg, gnorm, hz):
+                    if "raise" in _escape_outcomes(g, gcfg, gpar, m, lambda _m: False):
+                        raising[g.name] = m
+                        changed = True
+                        break
+
+        # (e) obligation: entered with the timer fired and the reservation still held
+        work = [g for (_f, _n, _c, cbs) in roots for g in cbs]
+        done = set()
+        while work:
+            g = work.pop()
+            if g.qual in done:
+                continue
+            done.add(g.qual)
+            gcfg, gnorm, gpar = g.cfg(), FlowNorm(g), _parents(g)
+
+            def releasing_callees(m):
+                return [k for k in map(self_method, node_calls(m)) if k is not None and k.name in may_release]
+
+            def is_release(m):
+                return is_direct_release(m) or bool(releasing_callees(m))
+
+            def is_hazard(m, _g=g, _gn=gnorm):
+                if is_release(m):
+                    return False
+                return bool(timer_ops(_g, _gn, m)) or any(
+                    k is not None and k.name in raising for k in map(self_method, node_calls(m)))
+            # release sites reached while the reservation is still held; a callee that releases inherits the
+            # obligation (it, too, runs with the timer fired and the reservation held)
+            first_rel = set()
+
+            def tr(n, lab, nxt, st):
+                if n.kind in ("exit", "raise"):
+                    return None
+                if n.kind != "entry" and lab != "exc" and is_release(n):
+                    return None
+                return 0
+            vis, _par = explore(gcfg, 0, tr)
+            for (nid, _s) in vis:
+                m = gcfg.nodes[nid]
+                if m.kind not in ("entry", "exit", "raise") and is_release(m):
+                    first_rel.add(nid)
+            for nid in sorted(first_rel):
+                m = gcfg.nodes[nid]
+                r.site(g, m.ast, "release reached from the fired timer %s" % X)
+                for k in releasing_callees(m):
+                    work.append(k)
+            # every hazard on a path entry -> release
+            for (m, w) in unguarded(g, gcfg, gnorm, is_hazard, is_release=is_release, measure=True):
+                # does a release follow this statement at all?
+                reach, dq = {m.id}, [m.id]
+                while dq:
+                    x = dq.pop()
+                    for (d, l) in gcfg.succ[x]:
+                        if d not in reach:
+                            reach.add(d)
+                            dq.append(d)
+                if not any(is_release(gcfg.nodes[x]) for x in reach if x != m.id):
+                    continue
+                outs = _escape_outcomes(g, gcfg, gpar, m, is_release)
+                if not outs:
+                    continue
+                ops = timer_ops(g, gnorm, m)
+                what = ("%s.%s()" % (X, ops[0].func.attr)) if ops else "%s (which operates on %s unguarded)" % (
+                    src(g, m.ast), X)
+                how = "the exception leaves %s" % short(g) if "raise" in outs else "%s returns" % short(g)
+                w2 = outs.get("raise") or outs.get("exit")
+                r.violation(g, g.loc(m.ast), "%s runs when the inactivity timer %s has fired, and calls %s before the "
+                            "reservation is released, not guarded by %s.active(): on a fired (or cancelled) DelayedCall "
+                            "this raises AlreadyCalled/AlreadyCancelled, %s and ss.bucket_writer_closed is never reached - "
+                            "the upload's space stays counted in allocated_size() for ever (path: %s)" % (
+                                short(g), X, what, X, how, w.brief()), w2 or w)
+    if not n_relevant:
+        raise AnchorVanished("the callback of the BucketWriter timer(s) %s no longer reaches ss.bucket_writer_closed: the "
+                             "inactivity timeout this rule follows to the release is gone" % ", ".join(skipped))
 
 
 def run(ctx: Context):
@@ -461,3 +770,9 @@ def run(ctx: Context):
             v = n.ast.value
             nv = gn.norm(n, v) if v is not None else "None"
             r.require(nv in (want, "0", "None"), ga, ga.loc(n.ast), "fileutil.get_available_space returns %s" % nv)
+
+    # ------------------------------------------------------------ 5. nothing raises between "abort" and the release
+    with ctx.rule("C28.5", "E3/E4", "from the fired inactivity timer to ss.bucket_writer_closed: no cancel/reset/delay "
+                  "of that (already fired) DelayedCall before the release unless guarded by .active() or caught",
+                  expected=2) as r:
+        check_timer_release(idx, idx.cls(BW), r)
